@@ -218,12 +218,53 @@ func (reg *Registry) lemmaObligations(pkgRel string) (obls []*Obligation, proven
 				}
 			}()
 			env := &SpecEnv{reg: reg, pkg: reg.pkgs[p], st: newState(), vars: map[string]*Value{}}
-			t := env.evalBool(lm.Expr)
 			var hyps []*Term
 			for _, pl := range proven {
 				hyps = append(hyps, pl.T)
 			}
-			obls = append(obls, &Obligation{Name: pkgRel + "/lemma:" + lm.Name, Hyps: hyps, Goal: t, Kind: "lemma", Func: pkgRel})
+			var t *Term
+			if at := strings.Index(lm.Name, "@"); at >= 0 {
+				// induction on the named integer binder: base (v = 0) and step (v > 0, IH at v-1);
+				// the lemma is then available for v >= 0 only.
+				v := lm.Name[at+1:]
+				q := lm.Expr
+				if q.Kind != SQuant || q.Op != "forall" {
+					specFail("induction lemma %s must be a forall", lm.Name)
+				}
+				var others []SBinder
+				var vb *SBinder
+				for i := range q.Binders {
+					if q.Binders[i].Name == v {
+						vb = &q.Binders[i]
+					} else {
+						others = append(others, q.Binders[i])
+					}
+				}
+				if vb == nil {
+					specFail("induction lemma %s: no binder %s", lm.Name, v)
+				}
+				wrap := func(x *SExpr) *SExpr {
+					if len(others) == 0 {
+						return x
+					}
+					return &SExpr{Kind: SQuant, Op: "forall", Binders: others, X: x}
+				}
+				id := func(n string) *SExpr { return &SExpr{Kind: SIdent, Name: n} }
+				lit := func(n string) *SExpr { return &SExpr{Kind: SIntLit, Name: n} }
+				base := wrap(&SExpr{Kind: SLet, Name: v, X: lit("0"), Y: q.X})
+				ih := wrap(&SExpr{Kind: SLet, Name: v, X: &SExpr{Kind: SBinary, Op: "-", X: id(v), Y: lit("1")}, Y: q.X})
+				step := &SExpr{Kind: SQuant, Op: "forall", Binders: []SBinder{*vb}, X: &SExpr{Kind: SBinary, Op: "==>",
+					X: &SExpr{Kind: SBinary, Op: ">", X: id(v), Y: lit("0")},
+					Y: &SExpr{Kind: SBinary, Op: "==>", X: ih, Y: wrap(q.X)}}}
+				obls = append(obls, &Obligation{Name: pkgRel + "/lemma:" + lm.Name + "/base", Hyps: hyps, Goal: env.evalBool(base), Kind: "lemma", Func: pkgRel})
+				obls = append(obls, &Obligation{Name: pkgRel + "/lemma:" + lm.Name + "/step", Hyps: hyps, Goal: env.evalBool(step), Kind: "lemma", Func: pkgRel})
+				guarded := &SExpr{Kind: SQuant, Op: "forall", Binders: q.Binders, X: &SExpr{Kind: SBinary, Op: "==>",
+					X: &SExpr{Kind: SBinary, Op: ">=", X: id(v), Y: lit("0")}, Y: q.X}}
+				t = env.evalBool(guarded)
+			} else {
+				t = env.evalBool(lm.Expr)
+				obls = append(obls, &Obligation{Name: pkgRel + "/lemma:" + lm.Name, Hyps: hyps, Goal: t, Kind: "lemma", Func: pkgRel})
+			}
 			a := axiomTerm{Name: "lemma:" + lm.Name, T: t, ufs: map[string]bool{}}
 			termUFs(t, a.ufs)
 			proven = append(proven, a)
